@@ -220,6 +220,9 @@ func (r *Run) Finish(evaluations, distinctNontrivial int64, rule string) {
 	for _, k := range names {
 		cnt[k] = r.counters[k]
 	}
+	if n := RejectedInterleaved(); n > 0 {
+		cnt["rejected_policies_compiled_in_front_of_judged_compilations"] = n
+	}
 	cov["counters"] = cnt
 	cov["evaluations"] = evaluations
 	cov["distinct_nontrivial"] = distinctNontrivial
